@@ -8,6 +8,8 @@ import DriverOps.Curves
 import DriverOps.Views
 import DriverOps.Channel
 import DriverOps.DataWrite
+import DriverOps.WriteObj
+import DriverOps.Transform
 /-
 Line protocol: one JSON request per line on stdin, one JSON answer per line on stdout.
 The driver only (de)serialises; every answer is computed by the definitions in `LasioModel`,
@@ -33,6 +35,8 @@ def handle (j : Json) : Except String Json := do
     | some "vw" => handleViews op j
     | some "ch" => handleChannel op j
     | some "dw" => handleDataWrite op j
+    | some "wo" => handleWriteObj op j
+    | some "tf" => handleTransform op j
     | _ => throw s!"unknown op {op}"
 
 partial def loop (hin hout : IO.FS.Stream) : IO Unit := do
